@@ -110,7 +110,7 @@ class FakeDevice:
         self.S.point("dev.write", effect=True)
         if self.lost or not self._open:
             raise DEVMOD.DeviceError("Unable to write to serial port 'fake'")
-        text = data.decode("ascii")
+        text = data.decode("utf-8")
         if not text.endswith("\n") or "\n" in text[:-1]:
             self.log.append(("tx-malformed", text))
         line = text.rstrip("\n")
